@@ -4,17 +4,18 @@ import SgVerif.C29.LemmasPair
 import SgVerif.C29.LemmasReduce
 import SgVerif.C29.LemmasSpec
 import SgVerif.C29.LemmasLr
+import SgVerif.C29.LemmasBruck
 /-
 C29 — Every collective algorithm computes the MPI result.  Property theorems.
 
 (A) theorems on the SPEC (Model.lean §Spec), for every communicator size, count, buffers, and every operator that is
     associative (+ commutative where stated);
 (B) schedule theorems: the round-based models of allreduce-rdb (incl. its non-power-of-two pre/post phase),
-    allgather-ring, bcast binomial_tree (= the default bcast), alltoall pair, reduce flat_tree, reduce binomial and
+    allgather-ring, bcast binomial_tree (= the default bcast), alltoall pair, reduce flat_tree, reduce binomial, allgather bruck and
     allreduce lr (ring reduce-scatter + ring allgather; counts that are a positive multiple of the size)
     compute the spec's result for EVERY communicator size, root and rank (`allreduce_rdb_eq_spec`,
     `allgather_ring_eq_spec`, `bcast_binomial_eq_spec`, `alltoall_pair_eq_spec`, `reduce_flat_tree_eq_spec`,
-    `reduce_binomial_eq_spec`, `allreduce_lr_eq_spec`).  The other selectable algorithms are not modelled: they are tied to the spec by the
+    `reduce_binomial_eq_spec`, `allreduce_lr_eq_spec`, `allgather_bruck_eq_spec`).  The other selectable algorithms are not modelled: they are tied to the spec by the
     correspondence only.
 -/
 namespace SgVerif.C29
@@ -559,6 +560,21 @@ theorem allreduce_lr_eq_spec (op : α → α → α) (hA : ∀ a b c, op (op a b
 /-- non-vacuity: 3 ranks, 3 blocks of 2 cells -/
 example : (allSome ((List.range 3).map (allreduceLr (zipOp (· + ·)) (fun r b => [(10 * r + b : Int), 1]) 3 1))).map List.flatten
     = some [30, 3, 33, 3, 36, 3] := by decide
+
+/-- **Bruck allgather (allgather-bruck.cpp) = the spec, for every communicator size (power of two or not: the
+remainder round is part of the model) and every rank**: after the doubling rounds, the remainder round and the final
+local rotation, slot `i` of the receive buffer holds the block of rank `i`. -/
+theorem allgather_bruck_eq_spec (bufs : Bufs α) (rank : Nat) (hr : rank < bufs.length) :
+    allgatherBruck (fun r => bufs.getD r []) bufs.length rank = bufs.map some := by
+  rw [allgatherBruck_eq _ _ _ hr]
+  apply List.ext_getElem?
+  intro i
+  by_cases hi : i < bufs.length
+  · simp [hi, List.getD_eq_getElem?_getD]
+  · simp [hi]
+
+/-- non-vacuity: 6 ranks (not a power of two) -/
+example : allgatherBruck (fun r => [r]) 6 4 = [some [0], some [1], some [2], some [3], some [4], some [5]] := by decide
 
 /-- non-vacuity: 5 ranks -/
 example : allgatherRing [[1], [2], [3], [4], [5]] 3 = [some [1], some [2], some [3], some [4], some [5]] := by decide
